@@ -1,6 +1,7 @@
 package catalog
 
 import (
+	"errors"
 	"strings"
 
 	"github.com/jsightapi/jsight-schema-go-library/bytes"
@@ -47,11 +48,36 @@ func (m regexMarshaller) Marshal(name string, regexStr bytes.Bytes) (schema Sche
 	schema.ContentRegexp = strings.TrimPrefix(n.Value, "/")
 	schema.ContentRegexp = strings.TrimSuffix(schema.ContentRegexp, "/")
 
-	example, err := s.Example()
+	example, err := regexExample(s)
 	if err != nil {
 		return Schema{}, err
 	}
 
 	schema.Example = string(example)
 	return schema, nil
+}
+
+// CheckRegexUserType reports a regex user type for which the copy that is added
+// to the schemas using it (see FreshUserType) cannot produce an example.
+func CheckRegexUserType(name string, ut *regex.Schema) error {
+	if fresh, ok := FreshUserType(name, ut).(*regex.Schema); ok {
+		_, err := regexExample(fresh)
+		return err
+	}
+	return nil
+}
+
+// regexExample builds an example for the regular expression. The generator
+// panics (not with an error) on an expression that matches no string at all, e.g.
+// an empty character class: that is an invalid schema, not a reason to crash.
+func regexExample(s *regex.Schema) (example []byte, err error) {
+	defer func() {
+		if r := recover(); r != nil {
+			if e, ok := r.(error); ok {
+				panic(e)
+			}
+			err = errors.New("unable to generate an example for the regular expression")
+		}
+	}()
+	return s.Example()
 }
